@@ -132,21 +132,17 @@ func (bv *BitVector) Equals() bool {
 		return false
 	}
 
-	l := len(bv.b)
-
-	length := bv.len % 8
-	for i := 0; i < l; i++ {
-		if length != 0 && i == l-1 {
-			for length > 0 {
-				length--
-				if bv.b[i]&(0x01<<uint(length%8)) == 0 {
-					return false
-				}
-			}
-		} else {
-			if bv.b[i] != 0xff {
-				return false
-			}
+	// only the bits below bv.len count; the backing slice may be longer than needed
+	full := bv.len / 8
+	for i := 0; i < full; i++ {
+		if bv.b[i] != 0xff {
+			return false
+		}
+	}
+	if rem := uint(bv.len % 8); rem != 0 {
+		mask := byte(1)<<rem - 1
+		if bv.b[full]&mask != mask {
+			return false
 		}
 	}
 	return true
